@@ -524,7 +524,8 @@ const WORDS: &[&str] = &[
     "uri=\"http://acs.amazonaws.com/groups/global/AllUsers\"", "emailAddress=\"a@b\", id=x", "k1=v1&k2=v2", "k=%zz", "a=b=c&&", "FULL_CONTROL",
 ];
 const MISC: &[&str] = &[
-    "bytes=0-9", "bytes=-", "bytes=-5", "bytes=5-", "bytes=9-0", "bytes=0-18446744073709551616", "bytes=0-1,3-4", "lines=0-1", "bytes= 0-1", "/bucket/key",
+    "bytes=0-9", "bytes=-", "bytes=-5", "bytes=5-", "bytes=9-0", "bytes=0-18446744073709551616", "bytes=0-18446744073709551615", "bytes=18446744073709551615-", "bytes=-18446744073709551615", "bytes=9223372036854775807-9223372036854775808",
+    "bytes=0-4294967295", "bytes=4294967296-", "bytes=0-1,3-4", "lines=0-1", "bytes= 0-1", "/bucket/key",
     "bucket/key?versionId=1", "/b/%ff", "bucket", "/", "bucket/a%3Fb", "arn:aws:s3:us-east-1:123456789012:accesspoint/ap/object/k", "\"etag\"", "*", "W/\"x\"", "etag",
     "1B2M2Y8AsgTpgAmY7PhCfg==", "!!!!", "AAAA", "AAAAAA==", "text/plain", "application/xml; charset=\"", "application/x-www-form-urlencoded", "multipart/form-data",
     "multipart/form-data; boundary=", "multipart/form-data; boundary=x", "text/plain; a=b; c", "a/b/c/d", ";", "=", ",", "123456789012", "aws-chunked", "gzip, aws-chunked",
@@ -593,12 +594,25 @@ fn value_for(rng: &mut Rng, name: &str) -> Vec<u8> {
     let numeric = ["length", "size", "max", "number", "days", "part", "count", "age"].iter().any(|k| n.contains(k));
     let timey = ["date", "time", "since", "until", "expires", "modified"].iter().any(|k| n.contains(k));
     match rng.below(10) {
+        0 | 1 if numeric => pick_str(rng, INT_EXTREMES),
+        0 if timey => pick_str(rng, HTTP_DATE_EXTREMES),
+        1 if timey => pick_str(rng, ISO_DATE_EXTREMES),
+        2 if timey => {
+            let pool = if rng.chance(1, 2) { EPOCH_EXTREMES } else { AMZ_DATE_EXTREMES };
+            pick_str(rng, pool)
+        }
         0..=5 if numeric => pick_str(rng, INTS),
         0..=5 if timey => pick_str(rng, TIMES),
         0..=3 => pick_str(rng, WORDS),
         4..=6 => pick_str(rng, MISC),
-        7 => pick_str(rng, INTS),
-        8 => pick_str(rng, TIMES),
+        7 => {
+            let pool = if rng.chance(1, 3) { INT_EXTREMES } else { INTS };
+            pick_str(rng, pool)
+        }
+        8 => {
+            let pool = if rng.chance(1, 3) { ISO_DATE_EXTREMES } else { TIMES };
+            pick_str(rng, pool)
+        }
         _ => pick_str(rng, KEYS).into_iter().filter(|b| *b >= 32 && *b != 127).collect(),
     }
 }
@@ -753,12 +767,13 @@ fn build_shaped(rng: &mut Rng, tree: &Tree, shape: &RouteShape, cfg_host: &str) 
 /// POST object: `multipart/form-data` with the V4 policy fields
 fn build_post_form(rng: &mut Rng, cfg_host: &str) -> Req {
     let bucket = pick_str(rng, BUCKETS);
+    let form_date: &str = if rng.chance(1, 6) { rng.pick(AMZ_DATE_EXTREMES) } else { "@NOW@" };
     let mut fields: Vec<(String, Vec<u8>)> = vec![
         ("key".to_owned(), pick_str(rng, KEYS)),
         ("policy".to_owned(), b"eyJleHBpcmF0aW9uIjoiMjAzMC0wMS0wMVQwMDowMDowMFoiLCJjb25kaXRpb25zIjpbXX0=".to_vec()),
         ("x-amz-algorithm".to_owned(), b"AWS4-HMAC-SHA256".to_vec()),
-        ("x-amz-credential".to_owned(), format!("{ACCESS_KEY}/@DAY@/{REGION}/s3/aws4_request").into_bytes()),
-        ("x-amz-date".to_owned(), b"@NOW@".to_vec()),
+        ("x-amz-credential".to_owned(), format!("{ACCESS_KEY}/{}/{REGION}/s3/aws4_request", if form_date == "@NOW@" { "@DAY@" } else { day_of(form_date) }).into_bytes()),
+        ("x-amz-date".to_owned(), form_date.as_bytes().to_vec()),
         ("x-amz-signature".to_owned(), SIG4.as_bytes().to_vec()),
     ];
     for _ in 0..rng.below(3) {
@@ -834,14 +849,17 @@ fn build_post_form(rng: &mut Rng, cfg_host: &str) -> Req {
 }
 
 fn add_auth(rng: &mut Rng, r: &mut Req) {
-    let scope = format!("{ACCESS_KEY}/@DAY@/{REGION}/s3/aws4_request");
+    // mostly "now"; one time in six a calendar edge, with the credential scope following it
+    let date: String = if rng.chance(1, 6) { rng.pick(AMZ_DATE_EXTREMES).to_owned() } else { "@NOW@".to_owned() };
+    let day: String = if date == "@NOW@" { "@DAY@".to_owned() } else { day_of(&date).to_owned() };
+    let scope = format!("{ACCESS_KEY}/{day}/{REGION}/s3/aws4_request");
     match rng.below(8) {
         0 => {}
         1 | 2 => {
             // V4 header
             let sha = rng.pick(&["UNSIGNED-PAYLOAD", "e3b0c44298fc1c149afbf4c8996fb92427ae41e4649b934ca495991b7852b855", "UNSIGNED-PAYLOAD"]);
             r.set_header("x-amz-content-sha256", sha.as_bytes());
-            r.set_header("x-amz-date", b"@NOW@");
+            r.set_header("x-amz-date", date.as_bytes());
             let mut signed: Vec<String> = vec!["host".to_owned(), "x-amz-content-sha256".to_owned(), "x-amz-date".to_owned()];
             for (n, _) in &r.headers {
                 let n = String::from_utf8_lossy(n).into_owned();
@@ -879,7 +897,7 @@ fn add_auth(rng: &mut Rng, r: &mut Req) {
                     r.set_header("x-amz-decoded-content-length", &declared);
                 }
                 r.set_header("content-length", b"@LEN@");
-                r.set_header("x-amz-date", b"@NOW@");
+                r.set_header("x-amz-date", date.as_bytes());
                 let a = format!("AWS4-HMAC-SHA256 Credential={scope}, SignedHeaders=content-encoding;host;x-amz-content-sha256;x-amz-date;x-amz-decoded-content-length, Signature={SIG4}");
                 r.set_header("authorization", a.as_bytes());
                 r.sign = true;
@@ -887,10 +905,14 @@ fn add_auth(rng: &mut Rng, r: &mut Req) {
         }
         4 => {
             // V4 presigned
-            let expires = if rng.chance(1, 6) { pick_str(rng, INTS) } else { b"3600".to_vec() };
+            let expires = match rng.below(8) {
+                0 => pick_str(rng, INTS),
+                1 | 2 => pick_str(rng, EXPIRES_EXTREMES),
+                _ => b"3600".to_vec(),
+            };
             r.query.push((b"X-Amz-Algorithm".to_vec(), Some(b"AWS4-HMAC-SHA256".to_vec())));
             r.query.push((b"X-Amz-Credential".to_vec(), Some(scope.replace('/', "%2F").into_bytes())));
-            r.query.push((b"X-Amz-Date".to_vec(), Some(b"@NOW@".to_vec())));
+            r.query.push((b"X-Amz-Date".to_vec(), Some(date.clone().into_bytes())));
             r.query.push((b"X-Amz-Expires".to_vec(), Some(pct(&expires))));
             r.query.push((b"X-Amz-SignedHeaders".to_vec(), Some(b"host".to_vec())));
             r.query.push((b"X-Amz-Signature".to_vec(), Some(SIG4.as_bytes().to_vec())));
@@ -898,14 +920,22 @@ fn add_auth(rng: &mut Rng, r: &mut Req) {
         }
         5 => {
             // V2 header
-            r.set_header("date", b"Wed, 21 Oct 2015 07:28:00 GMT");
+            let d = if rng.chance(1, 5) { pick_str(rng, HTTP_DATE_EXTREMES) } else { b"Wed, 21 Oct 2015 07:28:00 GMT".to_vec() };
+            r.set_header("date", &d);
+            if rng.chance(1, 10) {
+                r.set_header("x-amz-date", date.as_bytes());
+            }
             r.set_header("authorization", format!("AWS {ACCESS_KEY}:{SIG2}").as_bytes());
             r.sign = true;
         }
         6 => {
             // V2 presigned
             r.query.push((b"AWSAccessKeyId".to_vec(), Some(ACCESS_KEY.as_bytes().to_vec())));
-            r.query.push((b"Expires".to_vec(), Some(if rng.chance(1, 6) { pct(&pick_str(rng, INTS)) } else { b"@EXP@".to_vec() })));
+            r.query.push((b"Expires".to_vec(), Some(match rng.below(8) {
+                0 => pct(&pick_str(rng, INTS)),
+                1 | 2 => pct(&pick_str(rng, EPOCH_EXTREMES)),
+                _ => b"@EXP@".to_vec(),
+            })));
             r.query.push((b"Signature".to_vec(), Some(SIG2_URL.as_bytes().to_vec())));
             r.sign = true;
         }
@@ -1192,6 +1222,304 @@ fn build_malformed(rng: &mut Rng, tree: &Tree) -> Req {
     }
 }
 
+// ------------------------------------------------------------------------------------------------
+// extreme values: the edges of every typed position (calendar edges in every accepted spelling, integer
+// fields at the edges of i32 / u32 / i64 / u64 and one past).  Used (a) exhaustively, one value at a time
+// in an otherwise valid request (`emit_extremes`), (b) as part of the value pools of the random streams.
+
+/// `X-Amz-Date` / `x-amz-date` (ISO 8601 basic)
+const AMZ_DATE_EXTREMES: &[&str] = &[
+    "00000101T000000Z", "00010101T000000Z", "99991231T235959Z", "99000101T000000Z", "99991231T000000Z", "19700101T000000Z", "20380119T031408Z", "00000000T000000Z",
+    "99999999T999999Z", "20240230T000000Z", "99991231T235960Z",
+];
+/// ISO 8601 date-times (XML members, `x-amz-object-lock-retain-until-date`, …)
+const ISO_DATE_EXTREMES: &[&str] = &[
+    "0001-01-01T00:00:00Z", "9999-12-31T23:59:59Z", "0001-01-01T00:00:00+23:59", "0001-01-01T00:00:00-23:59", "9999-12-31T23:59:59+23:59", "9999-12-31T23:59:59-23:59",
+    "0000-01-01T00:00:00Z", "9999-12-31T23:59:59.999999999Z", "0001-01-01T00:00:00.000Z", "9999-12-31T24:00:00Z", "10000-01-01T00:00:00Z", "-0001-01-01T00:00:00Z",
+    "1970-01-01T00:00:00Z", "2038-01-19T03:14:08Z",
+];
+/// HTTP-dates (`Date`, `If-Modified-Since`, `Expires`, …)
+const HTTP_DATE_EXTREMES: &[&str] = &[
+    "Fri, 31 Dec 9999 23:59:59 GMT", "Mon, 01 Jan 0001 00:00:00 GMT", "Sat, 01 Jan 0000 00:00:00 GMT", "Thu, 01 Jan 1970 00:00:00 GMT", "Tue, 19 Jan 2038 03:14:08 GMT",
+    "Fri, 31 Dec 9999 23:59:60 GMT", "Sat, 01 Jan 10000 00:00:00 GMT",
+];
+/// epoch seconds (`Expires` of a V2 presigned URL; epoch-seconds timestamps)
+const EPOCH_EXTREMES: &[&str] = &[
+    "0", "1", "253402300799", "253402300800", "2147483647", "2147483648", "4294967295", "4294967296", "9223372036854775807", "9223372036854775808", "18446744073709551615",
+    "18446744073709551616", "-1", "-62135596800", "-62135596801", "-9223372036854775808",
+];
+/// integer members: 0, 2^31-1, 2^32-1, 2^63-1, 2^64-1 and one past each (and one before zero)
+const INT_EXTREMES: &[&str] = &[
+    "0", "1", "-1", "2147483647", "2147483648", "-2147483648", "-2147483649", "4294967295", "4294967296", "9223372036854775807", "9223372036854775808",
+    "-9223372036854775808", "-9223372036854775809", "18446744073709551615", "18446744073709551616", "340282366920938463463374607431768211456",
+];
+/// `X-Amz-Expires` (seconds; u32 in the code, at most 604800 in the protocol)
+const EXPIRES_EXTREMES: &[&str] = &[
+    "1", "3600", "604800", "604801", "2147483647", "2147483648", "4294967295", "4294967296", "9223372036854775807", "18446744073709551615", "18446744073709551616", "0", "-1",
+];
+
+fn base64(data: &[u8]) -> String {
+    const T: &[u8; 64] = b"ABCDEFGHIJKLMNOPQRSTUVWXYZabcdefghijklmnopqrstuvwxyz0123456789+/";
+    let mut out = String::new();
+    for c in data.chunks(3) {
+        let n = (u32::from(c[0]) << 16) | (u32::from(*c.get(1).unwrap_or(&0)) << 8) | u32::from(*c.get(2).unwrap_or(&0));
+        out.push(T[(n >> 18) as usize & 63] as char);
+        out.push(T[(n >> 12) as usize & 63] as char);
+        out.push(if c.len() > 1 { T[(n >> 6) as usize & 63] as char } else { '=' });
+        out.push(if c.len() > 2 { T[n as usize & 63] as char } else { '=' });
+    }
+    out
+}
+
+fn plain_req(method: &str, path: &str) -> Req {
+    Req {
+        version: "1.1",
+        method: method.as_bytes().to_vec(),
+        path: path.as_bytes().to_vec(),
+        query: Vec::new(),
+        raw_uri: None,
+        headers: vec![(b"host".to_vec(), DOMAIN.as_bytes().to_vec())],
+        body: BodySpec::Frames(Vec::new()),
+        sign: false,
+    }
+}
+
+/// a query value: percent-encoded, except the `@…@` placeholders replaced at evaluation time
+fn qv(v: &str) -> Vec<u8> {
+    if v.starts_with('@') { v.as_bytes().to_vec() } else { pct(v.as_bytes()) }
+}
+
+fn day_of(date: &str) -> &str {
+    if date.len() >= 8 && date.is_char_boundary(8) { &date[..8] } else { date }
+}
+
+/// one of the six signed-request shapes with the given date and expiry and everything else valid:
+/// 0 V4 header, 1 V4 presigned, 2 V4 chunked upload, 3 V4 POST form, 4 V2 header, 5 V2 presigned.
+/// `date` is an `X-Amz-Date` for the V4 shapes, the `Date` / `x-amz-date` value for V2 header;
+/// `expiry` is `X-Amz-Expires` (shape 1), the policy expiration (shape 3) or `Expires` (shape 5).
+fn signed_shape(shape: usize, date: &str, expiry: &str) -> Req {
+    let scope = format!("{ACCESS_KEY}/{}/{REGION}/s3/aws4_request", day_of(date));
+    match shape {
+        0 => {
+            let mut r = plain_req("GET", "/bucket/key");
+            r.set_header("x-amz-content-sha256", b"UNSIGNED-PAYLOAD");
+            r.set_header("x-amz-date", date.as_bytes());
+            r.set_header("authorization", format!("AWS4-HMAC-SHA256 Credential={scope}, SignedHeaders=host;x-amz-content-sha256;x-amz-date, Signature={SIG4}").as_bytes());
+            r.sign = true;
+            r
+        }
+        1 => {
+            let mut r = plain_req("GET", "/bucket/key");
+            r.query.push((b"X-Amz-Algorithm".to_vec(), Some(b"AWS4-HMAC-SHA256".to_vec())));
+            r.query.push((b"X-Amz-Credential".to_vec(), Some(scope.replace('/', "%2F").into_bytes())));
+            r.query.push((b"X-Amz-Date".to_vec(), Some(qv(date))));
+            r.query.push((b"X-Amz-Expires".to_vec(), Some(qv(expiry))));
+            r.query.push((b"X-Amz-SignedHeaders".to_vec(), Some(b"host".to_vec())));
+            r.query.push((b"X-Amz-Signature".to_vec(), Some(SIG4.as_bytes().to_vec())));
+            r.sign = true;
+            r
+        }
+        2 => {
+            let mut r = plain_req("PUT", "/bucket/key");
+            r.body = BodySpec::Chunked(vec![b"hello".to_vec(), Vec::new()]);
+            r.set_header("x-amz-content-sha256", b"STREAMING-AWS4-HMAC-SHA256-PAYLOAD");
+            r.set_header("content-encoding", b"aws-chunked");
+            r.set_header("x-amz-decoded-content-length", b"5");
+            r.set_header("content-length", b"@LEN@");
+            r.set_header("x-amz-date", date.as_bytes());
+            r.set_header(
+                "authorization",
+                format!("AWS4-HMAC-SHA256 Credential={scope}, SignedHeaders=content-encoding;host;x-amz-content-sha256;x-amz-date;x-amz-decoded-content-length, Signature={SIG4}").as_bytes(),
+            );
+            r.sign = true;
+            r
+        }
+        3 => {
+            let policy = base64(format!("{{\"expiration\":\"{expiry}\",\"conditions\":[{{\"bucket\":\"bucket\"}},[\"starts-with\",\"$key\",\"\"]]}}").as_bytes());
+            let fields: Vec<(&str, String)> = vec![
+                ("key", "key".to_owned()),
+                ("policy", policy),
+                ("x-amz-algorithm", "AWS4-HMAC-SHA256".to_owned()),
+                ("x-amz-credential", scope.clone()),
+                ("x-amz-date", date.to_owned()),
+                ("x-amz-signature", SIG4.to_owned()),
+            ];
+            let mut body = Vec::new();
+            for (n, v) in &fields {
+                body.extend_from_slice(format!("--{BOUNDARY}\r\nContent-Disposition: form-data; name=\"{n}\"\r\n\r\n{v}\r\n").as_bytes());
+            }
+            body.extend_from_slice(format!("--{BOUNDARY}\r\nContent-Disposition: form-data; name=\"file\"; filename=\"f.txt\"\r\nContent-Type: text/plain\r\n\r\nhello\r\n--{BOUNDARY}--\r\n").as_bytes());
+            let mut r = plain_req("POST", "/bucket");
+            r.set_header("content-type", format!("multipart/form-data; boundary={BOUNDARY}").as_bytes());
+            r.set_header("content-length", body.len().to_string().as_bytes());
+            r.body = BodySpec::Frames(vec![Some(body)]);
+            r.sign = true;
+            r
+        }
+        4 => {
+            let mut r = plain_req("GET", "/bucket/key");
+            // an ISO-basic value goes where SigV2 also looks for the date: `x-amz-date`
+            if date.contains(',') || date.contains(' ') {
+                r.set_header("date", date.as_bytes());
+            } else {
+                r.set_header("x-amz-date", date.as_bytes());
+            }
+            r.set_header("authorization", format!("AWS {ACCESS_KEY}:{SIG2}").as_bytes());
+            r.sign = true;
+            r
+        }
+        _ => {
+            let mut r = plain_req("GET", "/bucket/key");
+            r.query.push((b"AWSAccessKeyId".to_vec(), Some(ACCESS_KEY.as_bytes().to_vec())));
+            r.query.push((b"Expires".to_vec(), Some(qv(expiry))));
+            r.query.push((b"Signature".to_vec(), Some(SIG2_URL.as_bytes().to_vec())));
+            r.sign = true;
+            r
+        }
+    }
+}
+
+fn emit_req(emit: &mut dyn FnMut(Vec<String>), cfg: &str, backend: &str, planted: &str, req: &mut Req) {
+    // `HeaderValue` refuses control characters: keep the value pools usable for headers and queries alike
+    for (_, v) in &mut req.headers {
+        v.retain(|b| (*b >= 32 && *b != 127) || *b == 9);
+    }
+    emit(vec![
+        cfg.to_owned(),
+        backend.to_owned(),
+        planted.to_owned(),
+        req.version.to_owned(),
+        hex(&req.method),
+        hex(&req.uri()),
+        pairs_hex(&req.headers),
+        body_field(&req.body),
+        if req.sign { "fix".to_owned() } else { "-".to_owned() },
+    ]);
+}
+
+/// exhaustive part: every extreme value, one at a time, in a request that is otherwise valid for the
+/// position (so it gets past parsing into the arithmetic), anonymous service and `SimpleAuth`
+fn emit_extremes(emit: &mut dyn FnMut(Vec<String>)) {
+    let cfgs = ["none/none/none/none", "simple/none/none/none", "simple/allow/single/nomatch"];
+    let now_dates = ["@NOW@"];
+    // 1. the six signed shapes × date extremes × expiry extremes
+    for cfg in cfgs {
+        for date in AMZ_DATE_EXTREMES.iter().chain(now_dates.iter()) {
+            for shape in [0usize, 2, 3] {
+                emit_req(emit, cfg, "stub", "-", &mut signed_shape(shape, date, "2030-01-01T00:00:00Z"));
+            }
+            for expiry in EXPIRES_EXTREMES {
+                emit_req(emit, cfg, "stub", "-", &mut signed_shape(1, date, expiry));
+            }
+            // V2 header with the date in `x-amz-date`
+            emit_req(emit, cfg, "stub", "-", &mut signed_shape(4, date, ""));
+        }
+        for date in HTTP_DATE_EXTREMES.iter().chain(ISO_DATE_EXTREMES).chain(EPOCH_EXTREMES) {
+            emit_req(emit, cfg, "stub", "-", &mut signed_shape(4, date, ""));
+        }
+        for expiry in EPOCH_EXTREMES.iter().chain(["@EXP@"].iter()) {
+            emit_req(emit, cfg, "stub", "-", &mut signed_shape(5, "", expiry));
+        }
+        // the POST policy's own expiration
+        for expiry in ISO_DATE_EXTREMES {
+            emit_req(emit, cfg, "stub", "-", &mut signed_shape(3, "@NOW@", expiry));
+        }
+    }
+    // 2. integer positions
+    for cfg in &cfgs[..1] {
+        for v in INT_EXTREMES {
+            let q = |path: &str, method: &str, name: &str, extra: &[(&str, &str)]| {
+                let mut r = plain_req(method, path);
+                r.query.push((name.as_bytes().to_vec(), Some(pct(v.as_bytes()))));
+                for (k, x) in extra {
+                    r.query.push((k.as_bytes().to_vec(), Some(x.as_bytes().to_vec())));
+                }
+                r
+            };
+            let h = |path: &str, method: &str, name: &str, value: String, body: &[u8]| {
+                let mut r = plain_req(method, path);
+                r.set_header(name, value.as_bytes());
+                if !body.is_empty() {
+                    r.body = BodySpec::Frames(vec![Some(body.to_vec())]);
+                    if name != "content-length" {
+                        r.set_header("content-length", body.len().to_string().as_bytes());
+                    }
+                }
+                r
+            };
+            let mut reqs = vec![
+                q("/bucket", "GET", "max-keys", &[]),
+                q("/bucket", "GET", "max-keys", &[("list-type", "2")]),
+                q("/bucket", "GET", "max-uploads", &[("uploads", "")]),
+                q("/", "GET", "max-buckets", &[]),
+                q("/bucket/key", "GET", "partNumber", &[]),
+                q("/bucket/key", "HEAD", "partNumber", &[]),
+                q("/bucket/key", "PUT", "partNumber", &[("uploadId", "upload-1")]),
+                q("/bucket/key", "GET", "max-parts", &[("uploadId", "upload-1")]),
+                q("/bucket/key", "GET", "part-number-marker", &[("uploadId", "upload-1")]),
+                h("/bucket/key", "PUT", "content-length", (*v).to_owned(), b"hello"),
+                h("/bucket/key", "PUT", "content-length", (*v).to_owned(), b""),
+                h("/bucket?tagging", "PUT", "content-length", (*v).to_owned(), b"<Tagging><TagSet></TagSet></Tagging>"),
+                h("/bucket/key", "PUT", "x-amz-decoded-content-length", (*v).to_owned(), b"hello"),
+                h("/bucket/key", "GET", "range", format!("bytes=0-{v}"), b""),
+                h("/bucket/key", "GET", "range", format!("bytes={v}-"), b""),
+                h("/bucket/key", "GET", "range", format!("bytes=-{v}"), b""),
+                h("/bucket/key", "GET", "range", format!("bytes={v}-{v}"), b""),
+                h("/bucket/key", "PUT", "x-amz-copy-source-range", format!("bytes=0-{v}"), b""),
+                h("/bucket/key", "PUT", "x-amz-mp-parts-count", (*v).to_owned(), b""),
+                h("/bucket/key", "PUT", "x-amz-object-size", (*v).to_owned(), b""),
+            ];
+            // the decoded length of a correctly signed chunked upload
+            let mut c = signed_shape(2, "@NOW@", "");
+            c.set_header("x-amz-decoded-content-length", v.as_bytes());
+            reqs.push(c);
+            let mut c = signed_shape(2, "@NOW@", "");
+            c.set_header("content-length", v.as_bytes());
+            reqs.push(c);
+            for r in &mut reqs {
+                if r.headers.iter().any(|(n, _)| n == b"x-amz-copy-source-range") {
+                    r.set_header("x-amz-copy-source", b"bucket/src");
+                    r.query.push((b"partNumber".to_vec(), Some(b"1".to_vec())));
+                    r.query.push((b"uploadId".to_vec(), Some(b"upload-1".to_vec())));
+                }
+                let cfg = if r.sign { "simple/none/none/none" } else { cfg };
+                emit_req(emit, cfg, "stub", "-", r);
+            }
+        }
+        // 3. timestamp positions outside authentication
+        for v in HTTP_DATE_EXTREMES.iter().chain(ISO_DATE_EXTREMES).chain(EPOCH_EXTREMES).chain(AMZ_DATE_EXTREMES) {
+            for (method, path, name) in [
+                ("GET", "/bucket/key", "if-modified-since"),
+                ("GET", "/bucket/key", "if-unmodified-since"),
+                ("PUT", "/bucket/key", "x-amz-copy-source-if-modified-since"),
+                ("PUT", "/bucket/key", "expires"),
+                ("PUT", "/bucket/key", "x-amz-object-lock-retain-until-date"),
+                ("DELETE", "/bucket/key", "x-amz-if-match-last-modified-time"),
+            ] {
+                let mut r = plain_req(method, path);
+                r.set_header(name, v.as_bytes());
+                if name.starts_with("x-amz-copy-source") {
+                    r.set_header("x-amz-copy-source", b"bucket/src");
+                }
+                emit_req(emit, cfg, "stub", "-", &mut r);
+            }
+            let mut r = plain_req("GET", "/bucket/key");
+            r.query.push((b"response-expires".to_vec(), Some(pct(v.as_bytes()))));
+            emit_req(emit, cfg, "stub", "-", &mut r);
+            let xml = format!("<Retention><Mode>GOVERNANCE</Mode><RetainUntilDate>{v}</RetainUntilDate></Retention>");
+            let mut r = plain_req("PUT", "/bucket/key?retention");
+            r.set_header("content-length", xml.len().to_string().as_bytes());
+            r.body = BodySpec::Frames(vec![Some(xml.into_bytes())]);
+            emit_req(emit, cfg, "stub", "-", &mut r);
+            let xml = format!("<LifecycleConfiguration><Rule><ID>r</ID><Filter><Prefix>p</Prefix></Filter><Status>Enabled</Status><Expiration><Date>{v}</Date></Expiration></Rule></LifecycleConfiguration>");
+            let mut r = plain_req("PUT", "/bucket?lifecycle");
+            r.set_header("content-length", xml.len().to_string().as_bytes());
+            r.body = BodySpec::Frames(vec![Some(xml.into_bytes())]);
+            emit_req(emit, cfg, "stub", "-", &mut r);
+        }
+    }
+}
+
 const PLANTED: &[(&str, Option<u16>)] = &[
     ("NoSuchKey", None), ("NoSuchBucket", None), ("AccessDenied", None), ("SlowDown", Some(503)), ("InternalError", None), ("NotModified", None), ("PermanentRedirect", None),
     ("PreconditionFailed", None), ("InvalidRange", None), ("MyBackendCode", Some(418)), ("MyBackendCode", None), ("NoSuchKey", Some(200)), ("InvalidAddressingHeader", None),
@@ -1200,6 +1528,7 @@ const PLANTED: &[(&str, Option<u16>)] = &[
 
 fn generate(rng: &mut Rng, n: u64, _tier: &str, emit: &mut dyn FnMut(Vec<String>)) {
     let tree = read_tree();
+    emit_extremes(emit);
     let mut shape_cursor = 0usize;
     for _ in 0..n {
         let auth = rng.pick(&["none", "simple"]);
@@ -1240,21 +1569,7 @@ fn generate(rng: &mut Rng, n: u64, _tier: &str, emit: &mut dyn FnMut(Vec<String>
             }
         }
         let _ = req.body_len();
-        // `HeaderValue` refuses control characters: keep the value pools usable for headers and queries alike
-        for (_, v) in &mut req.headers {
-            v.retain(|b| (*b >= 32 && *b != 127) || *b == 9);
-        }
-        emit(vec![
-            format!("{auth}/{access}/{host}/{route}"),
-            backend.to_owned(),
-            planted,
-            req.version.to_owned(),
-            hex(&req.method),
-            hex(&req.uri()),
-            pairs_hex(&req.headers),
-            body_field(&req.body),
-            if req.sign { "fix".to_owned() } else { "-".to_owned() },
-        ]);
+        emit_req(emit, &format!("{auth}/{access}/{host}/{route}"), backend, &planted, &mut req);
     }
 }
 
